@@ -1,8 +1,315 @@
 import Grass.Proto
-/- Core `Interner` — stub; replaced by the model (see DESIGN.md §8). -/
+/-
+  C02 core — the state that survives a compilation, and what the compiler may do with it.
+
+  Modelled Rust:
+  * crates/compiler/src/interner.rs:6   `thread_local!(static STRINGS: RefCell<Rodeo<Spur>>)`;
+    `get_or_intern` (line 12) returns the existing key of a string or appends it and returns the
+    next key; `resolve`/`resolve_ref` (lines 17, 27) index the table.  Keys are handed out in
+    interning order (lasso `Spur` = index + 1; only equality and order of keys are used).
+  * crates/compiler/src/common.rs:119   `#[derive(Eq, PartialEq, Hash, PartialOrd, Ord, Copy)]
+    struct Identifier(InternedString)` — equality, order and hash of an identifier are those of
+    its KEY, so a `BTreeMap<Identifier, _>` iterates in interning order.
+  * crates/compiler/src/selector/complex.rs:14  `COMPLEX_SELECTOR_UNIQUE_ID: AtomicU32`,
+    `fetch_add(1, Relaxed)` at line 107 (compared only for equality: `ComplexSelectorHashSet`).
+  * crates/compiler/src/builtin/functions/mod.rs:25  `FUNCTION_COUNT: AtomicUsize`,
+    `fetch_add(1, Relaxed)` at line 70 (compared only for equality: `impl PartialEq for Builtin`).
+  * crates/compiler/src/ast/args.rs:38-110 `ArgumentDeclaration::verify` (“No argument(s) named”),
+    value/arglist.rs:12 `keywords: BTreeMap<Identifier, Value>`, utils/map_view.rs:51
+    `BaseMapView(BTreeMap<Identifier, T>)`, utils/map_view.rs:262 `MergedMapView(.., HashSet<Identifier>)`,
+    evaluate/visitor.rs:776 `config.first()`.
+  * crates/compiler/src/builtin/functions/string.rs:240 `unique_id`: "id-" followed by 12 samples
+    of `rand::distributions::Alphanumeric`.
+
+  Strings are `String` (only `=` on them is used); keys and ids are `Nat`.
+-/
 namespace Grass.Interner
 
+abbrev Str := String
+
+/-! ### the interner (interner.rs) -/
+
+/-- `Rodeo`: the strings in interning order; the key of a string is its index. -/
+abbrev Interner := List Str
+
+/-- Key of `s` if it is already in the table (`Rodeo::get`). -/
+def find? (s : Str) : Interner → Option Nat
+  | [] => none
+  | t :: ts => if t = s then some 0 else (find? s ts).map (· + 1)
+
+/-- `InternedString::get_or_intern` (interner.rs:12). -/
+def intern (st : Interner) (s : Str) : Interner × Nat :=
+  match find? s st with
+  | some k => (st, k)
+  | none => (st ++ [s], st.length)
+
+/-- `InternedString::resolve` (interner.rs:17); `none` where lasso would panic (foreign key). -/
+def resolve (st : Interner) (k : Nat) : Option Str := st[k]?
+
+/-- `PartialEq for Identifier` (derived, common.rs:119): equality of keys. -/
+def keyEq (a b : Nat) : Bool := a == b
+
+/-- The interner state after a history of `get_or_intern` calls. -/
+def internAll (st : Interner) : List Str → Interner
+  | [] => st
+  | s :: ss => internAll (intern st s).1 ss
+
+/-- Representation invariant of `Rodeo`: no string is stored twice. -/
+def Wf (st : Interner) : Prop := st.Nodup
+
+/-! ### process-wide id counters (complex.rs:14, functions/mod.rs:25) -/
+
+/-- `fetch_add(1)` on an atomic of modulus `m` (`2^32` for `AtomicU32`): returns the old value,
+    wraps around. -/
+def fetchAdd (m c : Nat) : Nat × Nat := ((c + 1) % m, c % m)
+
+/-- A schedule names, for each `fetch_add` executed by the process, the thread that issued it
+    (an arbitrary interleaving of the per-thread request sequences). `runSchedule` returns the
+    `(thread, id)` pairs in execution order. -/
+def runSchedule (m : Nat) : Nat → List Nat → List (Nat × Nat)
+  | _, [] => []
+  | c, t :: ts => (t, (fetchAdd m c).2) :: runSchedule m (fetchAdd m c).1 ts
+
+/-- The ids thread `t` observes, in its program order. -/
+def observed (m c : Nat) (sched : List Nat) (t : Nat) : List Nat :=
+  ((runSchedule m c sched).filter (fun p => p.1 == t)).map (·.2)
+
+/-! ### what a compilation may do with identifiers and ids
+
+  Registers hold keys (`Identifier`s) and ids.  A program can obtain a key only by interning a
+  string it computed, and an id only from the counter (`fresh`).  -/
+
+/-- String-valued expressions: literals from the source, the text of an identifier, concatenation. -/
+inductive SExpr where
+  | lit (s : Str)
+  | res (r : Nat)                 -- `Identifier::as_str` / `Display` of register `r`
+  | cat (a b : SExpr)
+  deriving Repr, Inhabited
+
+inductive Prog where
+  | halt
+  | intern (e : SExpr) (k : Prog)                 -- `Identifier::from(..)`: push the key
+  | emit (e : SExpr) (k : Prog)                   -- write text to the output / an error message
+  | ifKeyEq (r₁ r₂ : Nat) (t e : Prog)            -- `==` on identifiers, map lookup by identifier
+  /-- iterate a `BTreeMap/BTreeSet<Identifier,…>` built from registers `rs`, emitting each name.
+      `byKey = true`: the code as it stands (key order = interning order).
+      `byKey = false`: insertion order, first occurrence wins (what dart-sass's maps do). -/
+  | ordered (byKey : Bool) (rs : List Nat) (k : Prog)
+  /-- iterate a `HashSet<Identifier>` built from `rs`: insertion-ordered distinct members,
+      rearranged by `π` (a list of positions chosen by the hasher's random state). -/
+  | hashed (π : List Nat) (rs : List Nat) (k : Prog)
+  | fresh (k : Prog)                               -- `fetch_add`: push the id
+  | ifIdEq (i j : Nat) (t e : Prog)                -- `==` on ids
+  deriving Repr, Inhabited
+
+/-- Uses identifiers only through `keyEq`/`resolve` (and insertion-ordered iteration) and ids only
+    through `idEq`: no key-ordered and no hash-ordered iteration. -/
+def Prog.disciplined : Prog → Bool
+  | .halt => true
+  | .intern _ k => k.disciplined
+  | .emit _ k => k.disciplined
+  | .ifKeyEq _ _ t e => t.disciplined && e.disciplined
+  | .ordered byKey _ k => !byKey && k.disciplined
+  | .hashed _ _ _ => false
+  | .fresh k => k.disciplined
+  | .ifIdEq _ _ t e => t.disciplined && e.disciplined
+
+def evalS (st : Interner) (regs : List Nat) : SExpr → Option Str
+  | .lit s => some s
+  | .res r => match regs[r]? with
+    | some k => resolve st k
+    | none => none
+  | .cat a b => match evalS st regs a, evalS st regs b with
+    | some x, some y => some (x ++ y)
+    | _, _ => none
+
+/-- Insert into a strictly ascending list (the key set of a `BTreeMap`). -/
+def insertAsc (x : Nat) : List Nat → List Nat
+  | [] => [x]
+  | y :: ys => if x < y then x :: y :: ys else if x = y then y :: ys else y :: insertAsc x ys
+
+/-- Keys in ascending order without duplicates: iteration order of a `BTreeSet<Identifier>`. -/
+def ascending (ks : List Nat) : List Nat := ks.foldl (fun acc k => insertAsc k acc) []
+
+/-- First occurrences, in insertion order. -/
+def firstOcc [DecidableEq α] : List α → List α
+  | [] => []
+  | x :: xs => x :: (firstOcc xs).filter (· ≠ x)
+
+/-- Rearrangement by a list of positions (positions outside the list are skipped). -/
+def permuteBy (π : List Nat) (xs : List α) : List α := π.filterMap (xs[·]?)
+
+def getAll (xs : List α) (rs : List Nat) : Option (List α) := rs.mapM (xs[·]?)
+
+/-- Run a program.  `regs` are key registers (most recent last), `ids` id registers, `supply` the
+    ids this thread's `fetch_add` calls will return (determined by the counter's value and the
+    other threads' interleaved calls).  `none` = stuck (bad register, exhausted supply, foreign
+    key): never a default. -/
+def run : Prog → Interner → List Nat → List Nat → List Nat → Option (List Str)
+  | .halt, _, _, _, _ => some []
+  | .intern e k, st, regs, ids, sup =>
+    match evalS st regs e with
+    | some s => run k (intern st s).1 (regs ++ [(intern st s).2]) ids sup
+    | none => none
+  | .emit e k, st, regs, ids, sup =>
+    match evalS st regs e, run k st regs ids sup with
+    | some s, some out => some (s :: out)
+    | _, _ => none
+  | .ifKeyEq r₁ r₂ t e, st, regs, ids, sup =>
+    match regs[r₁]?, regs[r₂]? with
+    | some a, some b => if keyEq a b then run t st regs ids sup else run e st regs ids sup
+    | _, _ => none
+  | .ordered byKey rs k, st, regs, ids, sup =>
+    match getAll regs rs with
+    | some ks =>
+      match (if byKey then ascending ks else firstOcc ks).mapM (resolve st), run k st regs ids sup with
+      | some names, some out => some (names ++ out)
+      | _, _ => none
+    | none => none
+  | .hashed π rs k, st, regs, ids, sup =>
+    match getAll regs rs with
+    | some ks =>
+      match (permuteBy π (firstOcc ks)).mapM (resolve st), run k st regs ids sup with
+      | some names, some out => some (names ++ out)
+      | _, _ => none
+    | none => none
+  | .fresh k, st, regs, ids, sup =>
+    match sup with
+    | i :: sup' => run k st regs (ids ++ [i]) sup'
+    | [] => none
+  | .ifIdEq i j t e, st, regs, ids, sup =>
+    match ids[i]?, ids[j]? with
+    | some a, some b => if a == b then run t st regs ids sup else run e st regs ids sup
+    | _, _ => none
+
+/-- Number of `fetch_add`s on the longest path (what the supply must cover). -/
+def Prog.draws : Prog → Nat
+  | .halt => 0
+  | .intern _ k => k.draws
+  | .emit _ k => k.draws
+  | .ifKeyEq _ _ t e => max t.draws e.draws
+  | .ordered _ _ k => k.draws
+  | .hashed _ _ k => k.draws
+  | .fresh k => k.draws + 1
+  | .ifIdEq _ _ t e => max t.draws e.draws
+
+/-- A whole compilation on a thread whose interner already holds `st`. -/
+def compile (p : Prog) (st : Interner) (supply : List Nat) : Option (List Str) := run p st [] [] supply
+
+/-! ### the two places where grass iterates such containers into its output (as found)
+
+  `callNames` are the keyword-argument names in call-site order; `declared` the parameter names of
+  the callee.  Both are interned when the source is parsed, before the call is evaluated. -/
+
+/-- `keywords($args)` (builtin/functions/meta.rs:314 → `ArgList::keywords`, a `BTreeMap`). -/
+def keywordsProg (byKey : Bool) (callNames : List Str) : Prog :=
+  let n := callNames.length
+  callNames.foldr (fun s k => .intern (.lit s) k) (.ordered byKey (List.range n) .halt)
+
+/-- “No argument(s) named …” (ast/args.rs:92-110): the call's names minus the declared ones, collected
+    into a `BTreeSet<Identifier>`.  Registers: declared names first, then the call's names. -/
+def unknownNames (byKey : Bool) (st : Interner) (declared callNames : List Str) : Option (List Str) :=
+  let st₁ := internAll st (declared ++ callNames)
+  let keyOf := fun s => find? s st₁
+  match declared.mapM keyOf, callNames.mapM keyOf with
+  | some ds, some cs =>
+    let unk := cs.filter (fun k => !ds.contains k)
+    (if byKey then ascending unk else firstOcc unk).mapM (resolve st₁)
+  | _, _ => none
+
+/-- Names of a module's members as `meta.module-variables` lists them when the module has
+    `@forward`s: `MergedMapView` keeps the union in a `HashSet<Identifier>` (map_view.rs:262-310). -/
+def mergedKeysProg (π : List Nat) (names : List Str) : Prog :=
+  let n := names.length
+  names.foldr (fun s k => .intern (.lit s) k) (.hashed π (List.range n) .halt)
+
+/-! ### `unique-id()` (builtin/functions/string.rs:240) -/
+
+def isAlnum (c : Char) : Bool := c.isAlpha || c.isDigit    -- ASCII letters and digits
+
+def uniqueId (rnd : List Char) : List Char := 'i' :: 'd' :: '-' :: rnd
+
+def isNameStart (c : Char) : Bool := c.isAlpha || c == '_' || c.toNat ≥ 128
+def isNameChar (c : Char) : Bool := isNameStart c || c.isDigit || c == '-'
+
+/-- CSS identifier without escapes: `-`? name-start name-char*  or  `--` name-char*. -/
+def isIdent : List Char → Bool
+  | [] => false
+  | '-' :: '-' :: rest => rest.all isNameChar
+  | '-' :: c :: rest => isNameStart c && rest.all isNameChar
+  | c :: rest => isNameStart c && rest.all isNameChar
+
+/-- P̂ for the `unique-id()` clause: every result is a valid identifier and they are pairwise distinct. -/
+def uniqueIdsOk (ids : List (List Char)) : Bool := ids.all isIdent && decide ids.Nodup
+
+/-! ### observations and P̂ -/
+
+/-- What a caller sees of one compilation: the CSS or the rendered error text (bytes as hex). -/
+inductive Obs where
+  | css (bytes : String)
+  | err (bytes : String)
+  deriving DecidableEq, Repr, Inhabited
+
+/-- P̂ for the main clause: the observation made after a history / on another thread / in another
+    process is byte-identical to the observation made by a fresh thread of a fresh process. -/
+def sameObs (reference other : Obs) : Bool := decide (reference = other)
+
+/-! ### driver entry points -/
+open Grass.Proto
+
+def strsOfTok (s : String) : Option (List Str) :=
+  if s == "-" then some [] else (s.splitOn ",").mapM hexDecode
+
+def tokOfStrs (l : List Str) : String :=
+  if l.isEmpty then "-" else ",".intercalate (l.map hexEncode)
+
+def natsOfTok (s : String) : Option (List Nat) :=
+  if s == "-" then some [] else (s.splitOn ",").mapM (·.toNat?)
+
+def obsOfToks (kind hex : String) : Option Obs :=
+  if kind == "css" then some (.css hex) else if kind == "err" then some (.err hex) else none
+
 def handle : List String → String
+  -- keywords <byKey> <history> <callNames>: names in the order `keywords()` lists them
+  | ["keywords", bk, hist, call] =>
+    match parseBool? bk, strsOfTok hist, strsOfTok call with
+    | some bk, some hist, some call =>
+      match compile (keywordsProg bk call) (internAll [] hist) [] with
+      | some out => "ok " ++ tokOfStrs out
+      | none => "stuck"
+    | _, _, _ => "bad-op"
+  -- unknown <byKey> <history> <declared> <callNames>: order of names in “No arguments named”
+  | ["unknown", bk, hist, decl, call] =>
+    match parseBool? bk, strsOfTok hist, strsOfTok decl, strsOfTok call with
+    | some bk, some hist, some decl, some call =>
+      match unknownNames bk (internAll [] hist) decl call with
+      | some out => "ok " ++ tokOfStrs out
+      | none => "stuck"
+    | _, _, _, _ => "bad-op"
+  -- merged <π> <history> <names>: one possible listing of a forwarded module's members
+  | ["merged", pi, hist, names] =>
+    match natsOfTok pi, strsOfTok hist, strsOfTok names with
+    | some pi, some hist, some names =>
+      match compile (mergedKeysProg pi names) (internAll [] hist) [] with
+      | some out => "ok " ++ tokOfStrs out
+      | none => "stuck"
+    | _, _, _ => "bad-op"
+  -- same <css|err> <hex> <css|err> <hex>: P̂ main clause on two observations of the implementation
+  | ["same", k₁, h₁, k₂, h₂] =>
+    match obsOfToks k₁ h₁, obsOfToks k₂ h₂ with
+    | some a, some b => "ok " ++ boolStr (sameObs a b)
+    | _, _ => "bad-op"
+  -- uids <id,id,…>: P̂ unique-id clause on the implementation's results
+  | ["uids", ids] =>
+    match strsOfTok ids with
+    | some ids => "ok " ++ boolStr (uniqueIdsOk (ids.map String.toList))
+    | none => "bad-op"
+  -- ids <modulus> <start> <schedule>: ids per fetch_add under a schedule (thread,id pairs)
+  | ["ids", m, c, sched] =>
+    match m.toNat?, c.toNat?, natsOfTok sched with
+    | some m, some c, some sched =>
+      "ok " ++ " ".intercalate ((runSchedule m c sched).map fun p => s!"{p.1}:{p.2}")
+    | _, _, _ => "bad-op"
   | _ => "bad-op"
 
 end Grass.Interner
